@@ -6,6 +6,7 @@ import StoneVerif.Lemmas.RtCompatTrans
 import StoneVerif.Lemmas.RtCompatEdits
 import StoneVerif.Lemmas.RtCompatRename
 import StoneVerif.Props.C06
+import StoneVerif.Lemmas.RtRoundTrip
 /-!
 Property theorems for C07: backwards-compatible changes (docs/evolve_spec.rst) keep peers interoperable.
 
@@ -21,6 +22,7 @@ attribute descriptors unchanged).
 -/
 namespace StoneVerif.C07
 open StoneVerif.Rt StoneVerif.Rt.Compat
+open StoneVerif.Rt.RoundTrip (envRT ExtLaws valWF ambiguousEmpty canon Good decode_wire_canon)
 
 /-- the hypotheses about the two environments, bundled -/
 def Ctx (ρ : Rho) (A B : Env) : Prop := StoneVerif.Rt.Compat.Ctx ρ A B
@@ -56,6 +58,35 @@ theorem forward_compat_partial (E : Ext) {ρ : Rho} {A B : Env} {tA tB : PTy} (h
     decode E A [] false tA (wire E B tB v) = .ok (view ρ A tA w) :=
   forward_compat_msg E hs hA hB hxA huB hw _ sB w hrt
 
+/-- FORWARD COMPATIBILITY, wire form, full statement.
+A peer on the newer spec `B` serialises a valid value `v` of type `tB`; a peer on the older spec `A` (lenient decoding, the
+mode `evolve_spec.rst` prescribes for receivers) accepts the message and builds the A-view of `canon B tB v` — the value
+B's own decoder returns for the message, equal to `v` under Python `==` (C04: `decode_wire`, `round_trip`).
+Hypotheses: those of `forward_compat_msg` on the pair of specs, and those of C04's round-trip theorem on the sender's side
+(`envRT B`, `ExtLaws E B`, `tyWF B tB`, `validB`, `normalB`, `valWF`, not `ambiguousEmpty`) — all decidable and evaluated
+on real data by the harness, except `ExtLaws`. -/
+theorem forward_compat (E : Ext) {ρ : Rho} {A B : Env} {tA tB : PTy} (hs : subB ρ A B tA tB = true)
+    (hA : envWF A = true) (hB : envWF B = true) (hxA : envWFX A = true) (huB : envWFU B = true)
+    (hw : tyWF A tA = true) (hrtB : envRT B = true) (hE : ExtLaws E B) (v : PyVal)
+    (htB : tyWF B tB = true) (hv : validB E B tB v = true) (hn : normalB B tB v = true)
+    (hvw : valWF E B tB v = true) (hamb : ambiguousEmpty B tB v = false) :
+    decode E A [] false tA (wire E B tB v) = .ok (view ρ A tA (canon B tB v)) :=
+  forward_compat_msg E hs hA hB hxA huB hw _ false _
+    (decode_wire_canon hB hrtB hE false tB v ⟨htB, hv, hn, hvw, hamb⟩)
+
+/-- ... and what the older peer built is equal (Python `==`) to the A-view of a value equal to the original: the two
+facts side by side, as DESIGN.md states the property. -/
+theorem forward_compat_eq (E : Ext) {ρ : Rho} {A B : Env} {tA tB : PTy} (hs : subB ρ A B tA tB = true)
+    (hA : envWF A = true) (hB : envWF B = true) (hxA : envWFX A = true) (huB : envWFU B = true)
+    (hw : tyWF A tA = true) (hrtB : envRT B = true) (hE : ExtLaws E B) (v : PyVal)
+    (htB : tyWF B tB = true) (hv : validB E B tB v = true) (hn : normalB B tB v = true)
+    (hvw : valWF E B tB v = true) (hamb : ambiguousEmpty B tB v = false) :
+    ∃ v', pyEq E B v v' = true ∧ (∀ sB, decode E B [] sB tB (wire E B tB v) = .ok v') ∧
+      decode E A [] false tA (wire E B tB v) = .ok (view ρ A tA v') :=
+  ⟨canon B tB v, RoundTrip.pyEq_canon hB hrtB hE tB v ⟨htB, hv, hn, hvw, hamb⟩,
+    fun sB => decode_wire_canon hB hrtB hE sB tB v ⟨htB, hv, hn, hvw, hamb⟩,
+    forward_compat E hs hA hB hxA huB hw hrtB hE v htB hv hn hvw hamb⟩
+
 /-- STRICT DECODING ACCEPTS WHAT IT KNOWS (one half of `strict_rejects_iff`, message form, full generality).
 A document that the newer spec's decoder accepts and that contains nothing the older spec does not know at this type
 (`knownDoc`: every member is a field, every tag a tag, every subtype listed, Void tags bare) is accepted by the older
@@ -69,6 +100,18 @@ theorem strict_accepts_known (E : Ext) {ρ : Rho} {A B : Env} {tA tB : PTy} (hs 
     decode E A [] true tA j = .ok (view ρ A tA w) := by
   obtain ⟨cx, hty⟩ := ctx_of hs hA hB hxA huB
   exact decode_sub E cx j tA tB true sB w hty hw (fun _ => hk) h
+
+/-- STRICT DECODING ACCEPTS WHAT IT KNOWS, wire form: when the message B's encoder writes for a valid `v` contains nothing
+the older spec does not know, the older spec's strict decoder accepts it too, as the same A-view. -/
+theorem strict_accepts_known_wire (E : Ext) {ρ : Rho} {A B : Env} {tA tB : PTy} (hs : subB ρ A B tA tB = true)
+    (hA : envWF A = true) (hB : envWF B = true) (hxA : envWFX A = true) (huB : envWFU B = true)
+    (hw : tyWF A tA = true) (hrtB : envRT B = true) (hE : ExtLaws E B) (v : PyVal)
+    (htB : tyWF B tB = true) (hv : validB E B tB v = true) (hn : normalB B tB v = true)
+    (hvw : valWF E B tB v = true) (hamb : ambiguousEmpty B tB v = false)
+    (hk : knownDoc A tA (wire E B tB v) = true) :
+    decode E A [] true tA (wire E B tB v) = .ok (view ρ A tA (canon B tB v)) :=
+  strict_accepts_known E hs hA hB hxA huB hw _ false _
+    (decode_wire_canon hB hrtB hE false tB v ⟨htB, hv, hn, hvw, hamb⟩) hk
 
 /-- BACKWARD COMPATIBILITY, message form (full generality: every type, every nesting, every combination of modes).
 A document in the form the older spec's encoder writes (`tightDoc`: nothing the older spec does not know, Void tags bare)
@@ -289,6 +332,47 @@ example :
     view rho0 envA (.union {} "ns.U") (.union "ns.U" "w" (.int 3)) = .union "ns.U" "w" .none ∧
     view rho0 envA (.tree {} "ns.R") (.struct "ns.G" [("a", .int 2), ("n", .str "y")]) = .struct "ns.R" [("a", .int 2)] := by
   exact ⟨rfl, rfl, rfl, rfl, rfl, rfl⟩
+
+/-! ### the wire-form theorems on the pair: a value of the newer spec, serialised, read by the older spec -/
+
+theorem E0_lawsB : ExtLaws E0 envB :=
+  ⟨fun _ => rfl, fun _ => rfl, RoundTrip.dflt_refl_of_B (by decide +kernel)⟩
+theorem E0_lawsA : ExtLaws E0 envA :=
+  ⟨fun _ => rfl, fun _ => rfl, RoundTrip.dflt_refl_of_B (by decide +kernel)⟩
+
+def tUs : PTy := .list {} (.union {} "ns.U") none none
+/-- a list of union values of the newer spec: a struct member with the two added fields set, the added tag, the tag that
+was Void with its new payload, and an untouched Void tag -/
+def vB : PyVal := .list [.union "ns.U" "s" (.struct "ns.T" [("a", .int 1), ("b", .str "x"), ("c", .bool false)]),
+  .union "ns.U" "n" (.str "x"), .union "ns.U" "w" (.int 3), .union "ns.U" "v" .none]
+
+/-- the hypotheses of `forward_compat` hold of it -/
+theorem vB_good : subB rho0 envA envB tUs tUs = true ∧ envRT envB = true ∧ tyWF envA tUs = true ∧ tyWF envB tUs = true ∧
+    validB E0 envB tUs vB = true ∧ normalB envB tUs vB = true ∧ valWF E0 envB tUs vB = true ∧
+    ambiguousEmpty envB tUs vB = false := by decide +kernel
+
+/-- `forward_compat` instantiated ... -/
+example : decode E0 envA [] false tUs (wire E0 envB tUs vB) = .ok (view rho0 envA tUs (canon envB tUs vB)) :=
+  forward_compat E0 vB_good.1 (by decide +kernel) (by decide +kernel) (by decide +kernel) (by decide +kernel)
+    vB_good.2.2.1 vB_good.2.1 E0_lawsB vB vB_good.2.2.2.1 vB_good.2.2.2.2.1 vB_good.2.2.2.2.2.1 vB_good.2.2.2.2.2.2.1
+    vB_good.2.2.2.2.2.2.2
+/-- ... and its conclusion is not trivial: the message carries the new fields, the new tag and the new payload; the older
+peer's value has the fields dropped, the new tag read as `other`, the payload forgotten -/
+example :
+    wire E0 envB tUs vB = .arr [.obj [(".tag", .str "s"), ("a", .int 1), ("b", .str "x"), ("c", .bool false)],
+      .obj [(".tag", .str "n"), ("n", .str "x")], .obj [(".tag", .str "w"), ("w", .int 3)], .obj [(".tag", .str "v")]] ∧
+    view rho0 envA tUs (canon envB tUs vB) = .list [.union "ns.U" "s" (.struct "ns.S" [("a", .int 1)]),
+      .union "ns.U" "other" .none, .union "ns.U" "w" .none, .union "ns.U" "v" .none] ∧
+    knownDoc envA tUs (wire E0 envB tUs vB) = false := ⟨rfl, rfl, by decide +kernel⟩
+
+/-- `strict_accepts_known_wire`: a value of the newer spec that uses nothing new is accepted by the older strict decoder -/
+def vB' : PyVal := .list [.union "ns.U" "s" (.struct "ns.T" [("a", .int 1)]), .union "ns.U" "v" .none]
+example : validB E0 envB tUs vB' = true ∧ normalB envB tUs vB' = true ∧ valWF E0 envB tUs vB' = true ∧
+    ambiguousEmpty envB tUs vB' = false ∧ knownDoc envA tUs (wire E0 envB tUs vB') = true ∧
+    decode E0 envA [] true tUs (wire E0 envB tUs vB') =
+      .ok (.list [.union "ns.U" "s" (.struct "ns.S" [("a", .int 1)]), .union "ns.U" "v" .none]) :=
+  ⟨by decide +kernel, by decide +kernel, by decide +kernel, by decide +kernel, by decide +kernel,
+    by with_unfolding_all rfl⟩
 
 /-- each listed edit, alone, yields `compatEnv` (the harness additionally evaluates `compatEnv` on every generated pair) -/
 def envS (fields : List FieldDef) : Env := ⟨[⟨"ns.S", [⟨"ns.S", fields⟩], none, false⟩], []⟩
